@@ -1022,6 +1022,39 @@ constexpr IllFormed c10_ill_formed[] = {C10_ILL_FORMED{nullptr, nullptr}};
     }
 #endif
 
+    // single-word wide_integers of DIFFERENT signedness (reps are built-in integers of different signedness): the result has
+    // max digits and is signed; it must hold the arithmetic result by value, not the result of the built-in operator on the
+    // two raw reps (which converts the signed operand to unsigned first)
+    auto single_word_mixed = [&](auto ut, auto st, int ubits, int sbits, const char* uname, const char* sname) {
+        using UW = typename decltype(ut)::type;
+        using SW = typename decltype(st)::type;
+        std::vector<BigW> const VUu = common_values(ubits, false, 1, true);
+        std::vector<BigW> const VSs = common_values(sbits + 1, true, 1, true);
+        int const dg = std::max(ubits, sbits);
+        for (BigW const& a : VUu) {
+            if (!vf::my_row()) continue;
+            UW const A = wmake<UW>(a);
+            for (BigW const& b : VSs) {
+                std::string id = std::string(uname) + ":" + hex(a) + "," + sname + ":" + hex(b);
+                if (vf::replaying() && !vf::case_selected(id)) continue;
+                SW const B = wmake<SW>(b);
+                vf::counted(b.neg);
+                std::string const cls = std::string("single_word_mixed_signedness/") + (b.neg ? "signed_negative" : "signed_nonnegative");
+                std::string const what = std::string(uname) + " op " + sname, rwhat = std::string(sname) + " op " + uname;
+                mix("add", cls, id, A, B, a, b, [](auto const& p, auto const& q) { return p + q; }, 0, a + b, dg, true, what);
+                mix("radd", cls, id, B, A, b, a, [](auto const& p, auto const& q) { return p + q; }, 0, a + b, dg, true, rwhat);
+                mix("sub", cls, id, A, B, a, b, [](auto const& p, auto const& q) { return p - q; }, 0, a - b, dg, true, what);
+                mix("rsub", cls, id, B, A, b, a, [](auto const& p, auto const& q) { return p - q; }, 0, b - a, dg, true, rwhat);
+                mix("mul", cls, id, A, B, a, b, [](auto const& p, auto const& q) { return p * q; }, 0, a * b, dg, true, what);
+                mixcmp(cls, id, A, B, a, b, what, std::true_type{}, std::true_type{});
+            }
+        }
+    };
+    single_word_mixed(std::type_identity<cnl::wide_integer<32, unsigned>>{}, std::type_identity<cnl::wide_integer<31, int>>{}, 32, 31, "wide_integer<32,unsigned>", "wide_integer<31,int>");
+    single_word_mixed(std::type_identity<cnl::wide_integer<8, std::uint8_t>>{}, std::type_identity<cnl::wide_integer<7, std::int8_t>>{}, 8, 7, "wide_integer<8,uint8_t>", "wide_integer<7,int8_t>");
+    single_word_mixed(std::type_identity<cnl::wide_integer<64, unsigned>>{}, std::type_identity<cnl::wide_integer<40, int>>{}, 64, 40, "wide_integer<64,unsigned>", "wide_integer<40,int>");
+    single_word_mixed(std::type_identity<cnl::wide_integer<20, unsigned>>{}, std::type_identity<cnl::wide_integer<50, int>>{}, 20, 50, "wide_integer<20,unsigned>", "wide_integer<50,int>");
+
     // conversions between widths and signedness: value reduced to the target's storage
     auto conv = [&](auto from_tag, auto to_tag, std::vector<BigW> const& V, const char* what) {
         using Fm = typename decltype(from_tag)::type;
